@@ -209,6 +209,9 @@ def worker(args):
         try:
             new = mutated_source(orig, job["func"], job["func_line"], job["idx"], tuple(job["action"]))
             compile(new, path, "exec")
+            import difflib
+
+            job["diff"] = [l.strip()[:200] for l in difflib.unified_diff(ast.unparse(ast.parse(orig)).splitlines(), new.splitlines(), lineterm="", n=0) if l[:1] in "+-" and l[:3] not in ("+++", "---")][:4]
         except Exception as e:  # noqa: BLE001
             job.update(status="invalid", detail=repr(e)[:200])
             results.append(job)
@@ -247,11 +250,18 @@ def main():
     ap.add_argument("--seed", type=int, default=1)
     ap.add_argument("--out", required=True)
     ap.add_argument("--list", action="store_true")
+    ap.add_argument("--ops", default="", help="comma separated operator kinds to keep (cmp,bin,bool,unary,const,name,attr,swapargs,drop,ifnot,slice)")
+    ap.add_argument("--skip", default="", help="comma separated earlier result files whose mutants are not repeated")
     a = ap.parse_args()
     want = set(p for p in a.props.split(",") if p)
     rng = random.Random(a.seed)
     jobs = []
     seen_funcs = {}
+    done = set()
+    for fn in [x for x in a.skip.split(",") if x]:
+        for line in open(os.path.join(ROOT, fn)):
+            j = json.loads(line)
+            done.add((j["file"], j["func"], j["func_line"], j["idx"], repr(tuple(j["action"]))))
     for (file, name, line), pids in sorted(anchors().items(), key=lambda kv: (kv[0][0], kv[0][2])):
         if want and not (pids & want):
             continue
@@ -271,6 +281,9 @@ def main():
         tree = ast.parse(src)
         f = next(x for x in ast.walk(tree) if isinstance(x, (ast.FunctionDef, ast.AsyncFunctionDef)) and x.name == fname and x.lineno == fline)
         ss = sites(f)
+        if a.ops:
+            ss = [x for x in ss if x[2][0] in a.ops.split(",")]
+        ss = [x for x in ss if (file, fname, fline, x[0], repr(tuple(y if not isinstance(y, type) else y.__name__ for y in x[2]))) not in done]
         rng.shuffle(ss)
         props = sorted(pids & want) if want else sorted(pids)
         for idx, desc, action in ss[: a.per_func]:
